@@ -2,6 +2,7 @@ package props
 
 import (
 	"go/token"
+	"go/types"
 	"strings"
 
 	"golang.org/x/tools/go/ssa"
@@ -193,7 +194,7 @@ func checkC08(p *load.Program, r *kit.Report) {
 		for _, ret := range kit.Returns(ph) {
 			if reach.Has(ret) {
 				n++
-				if kit.ReturnErrClass(ret) != kit.ErrNonNil {
+				if kit.ReturnErrClass(ret) != kit.ErrNonNil && reach.ErrClass(ret) != kit.ErrNonNil {
 					ok, why = false, "unknown-parent arm reaches "+retLabel(ret)+" at "+posOf(p, ret)
 				}
 			}
@@ -306,6 +307,11 @@ func resolvePH(p *load.Program, r *kit.Report, rule string, ph *ssa.Function) *p
 		_ = gd
 	}
 	g.notInvalid = invalidLoopExit(ph, gs)
+	if len(g.notInvalid) == 0 {
+		// equivalent form: a lookup of the hash in a map that is derived state of the list (a field
+		// added since the reference tree, rebuilt from repo.invalidHashes after every change of it)
+		g.notInvalid = invalidMemoGuard(p, r, rule, ph, invalid, hashDerived)
+	}
 	if len(g.notInvalid) == 0 {
 		r.Unknown(rule, "ProcessHeader/anchor:invalid-loop", "-", "no refusal loop over repo.invalidHashes found")
 		return nil
@@ -544,4 +550,104 @@ func checkConfigAsGiven(p *load.Program, r *kit.Report, rule string) {
 		}
 	}
 	r.Check(why == "", rule, "NewRepository/config", posOf(p, nr.Blocks[0].Instrs[0]), "Repository.config is the caller's config", why)
+}
+
+
+// invalidMemoGuard recognises `if _, marked := repo.<memo>[hash]; marked { refuse }` where <memo> is
+// a map field of Repository that the reference tree does not have, and returns the not-marked edges.
+// The memo stands for the list only if (a) every entry put into it is keyed by an element of
+// repo.invalidHashes, (b) it is rebuilt as a fresh map, and (c) every function that changes the list
+// rewrites it afterwards (checkNewState); these are reported under the caller's rule.
+func invalidMemoGuard(p *load.Program, r *kit.Report, rule string, ph *ssa.Function, invalid *types.Var, hashDerived func(ssa.Value) bool) []kit.Edge {
+	isNew := map[*types.Var]bool{}
+	for _, f := range p.NewFields(H, "Repository") {
+		isNew[f] = true
+	}
+	if len(isNew) == 0 {
+		return nil
+	}
+	var memo *types.Var
+	gs := kit.FindGuards(ph, func(c ssa.Value) (bool, bool) {
+		e, ok := c.(*ssa.Extract)
+		if !ok || e.Index != 1 {
+			return false, false
+		}
+		lk, ok := e.Tuple.(*ssa.Lookup)
+		if !ok || !lk.CommaOk || !hashDerived(lk.Index) {
+			return false, false
+		}
+		fl, _ := kit.LoadedField(lk.X)
+		if fl == nil || !isNew[fl] {
+			return false, false
+		}
+		memo = fl
+		return true, false // pass = not marked = `ok` false
+	})
+	if len(gs) == 0 || memo == nil {
+		return nil
+	}
+	funcs := pkgFuncs(p, H)
+	bad := ""
+	fresh := false
+	for _, g := range funcs {
+		for _, w := range kit.DirectWrites(g) {
+			if w.Field != memo {
+				continue
+			}
+			switch w.Kind {
+			case "store":
+				if _, isMake := kit.Strip(w.Val).(*ssa.MakeMap); isMake {
+					fresh = true
+				} else if !kit.IsNilConst(w.Val) {
+					bad = "the memo is assigned something other than a new map in " + kit.ShortID(kit.FuncID(g))
+				}
+			case "mapupdate":
+				if !kit.DependsOn(w.Key, func(v ssa.Value) bool { return loadOfField(v, invalid) }) {
+					bad = "an entry is added to the memo in " + kit.ShortID(kit.FuncID(g)) + " whose key is not an element of repo.invalidHashes"
+				}
+			case "delete":
+				bad = "entries are deleted from the memo one by one in " + kit.ShortID(kit.FuncID(g)) + " (the list may hold a hash twice; only a rebuild from the list keeps the memo equal to it)"
+			}
+		}
+	}
+	// map updates through a local map that is then stored are seen as stores of a MakeMap; updates
+	// on that local map: keys must also come from the list
+	for _, g := range funcs {
+		kit.AllInstrs(g, func(in ssa.Instruction) {
+			mu, ok := in.(*ssa.MapUpdate)
+			if !ok {
+				return
+			}
+			mk, ok := kit.Strip(mu.Map).(*ssa.MakeMap)
+			if !ok {
+				return
+			}
+			stored := false
+			for _, w := range kit.DirectWrites(g) {
+				if w.Field == memo && w.Kind == "store" && kit.Strip(w.Val) == ssa.Value(mk) {
+					stored = true
+				}
+			}
+			if stored && !kit.DependsOn(mu.Key, func(v ssa.Value) bool { return loadOfField(v, invalid) }) {
+				bad = "an entry is added to the memo in " + kit.ShortID(kit.FuncID(g)) + " whose key is not an element of repo.invalidHashes"
+			}
+		})
+	}
+	if bad == "" && !fresh {
+		bad = "the memo is never rebuilt as a fresh map"
+	}
+	r.Check(bad == "", rule, "ProcessHeader/invalid-memo:"+memo.Name(), posOf(p, gs[0].If), "the lookup map is rebuilt as a new map from the elements of repo.invalidHashes", bad)
+	checkNewState(p, r, rule, "ProcessHeader/invalid-memo-refreshed", H, "Repository", []*ssa.Function{ph}, funcs, func(g *ssa.Function) []ssa.Instruction {
+		var out []ssa.Instruction
+		for _, w := range kit.DirectWrites(g) {
+			if w.Field == invalid {
+				out = append(out, w.Instr)
+			}
+		}
+		return out
+	})
+	if bad != "" {
+		return nil
+	}
+	return edgesOf(gs, true)
 }
